@@ -791,8 +791,10 @@ func ruleNoSharedMutableGlobals(c *Ctx) {
 // recovery path then blocks forever on the same mutex.
 func rulePanicUnderLock(c *Ctx) {
 	R := c.R
-	R.Rule("R-no-panic-under-lock", "E7 may-held locks", "no panic statement is reachable while a package mutex is held whose release is not deferred", 1)
+	R.Rule("R-no-panic-under-lock", "E7 may-held locks", "no panic statement and no backend callback is reachable while a package mutex is held whose release is not deferred", 1)
 	nLockFuncs := 0
+	nCb := 0
+	_, sm := c.Std()
 	for _, f := range c.P.AllFuncs() {
 		if !inSmtp(f) || len(f.Blocks) == 0 {
 			continue
@@ -838,6 +840,23 @@ func rulePanicUnderLock(c *Ctx) {
 						}
 					}
 				}
+				// a backend callback may panic as well (Conn.handle recovers it and calls Close, which takes the lock)
+				cb := ""
+				for l := range sm.InstrMay(x) {
+					if strings.HasPrefix(l, "cb:") {
+						cb = l
+					}
+				}
+				if cb != "" {
+					nCb++
+					for l := range cur {
+						if l != "Conn.locker" {
+							// only the connection's own lock is taken again by the recovery path (Conn.handle -> Close)
+							continue
+						}
+						R.Ob(c.siteKey(x, "callback under "+l+" is covered by a deferred unlock"), c.P.InstrPos(x), deferred[l], "a panic in "+strings.TrimPrefix(cb, "cb:")+" leaves "+l+" locked: the recovery in Conn.handle calls Close, which blocks on it forever (socket kept open, no Logout, Server.Close hangs)")
+					}
+				}
 			}
 			for _, sc := range b.Succs {
 				old, seen := in[sc]
@@ -853,4 +872,5 @@ func rulePanicUnderLock(c *Ctx) {
 		}
 	}
 	R.Ob("package functions/lock users scanned", "-", nLockFuncs >= 5, fmt.Sprintf("%d functions take a mutex", nLockFuncs))
+	R.Ob("package functions/callbacks in lock users", "-", nCb >= 2, fmt.Sprintf("%d callback sites in functions that take a mutex", nCb))
 }
